@@ -43,6 +43,8 @@ func runC17(w *World, r *Report) {
 		r.OKTrivial("C17/ERROR-KEPT", "none", "-", "no error is carried across loop iterations in pkg/downloader (a failure ends the loop)")
 	}
 	c17PullVerify(w, r)
+	c17VerifyErrorFatal(w, r)
+	c17VerifyName(w, r)
 }
 
 func c17Verify(w *World, r *Report) {
@@ -715,4 +717,76 @@ func verifyAlwaysValue(w *World) int64 {
 		}
 	}
 	return -1
+}
+
+// c17VerifyErrorFatal: whatever the strategy, once the verification was attempted its failure fails the
+// download (VerifyIfPossible tolerates a missing provenance file, not one that does not verify).
+func c17VerifyErrorFatal(w *World, r *Report) {
+	r.Rule("C17/VERIFY-ERROR-FATAL", "in DownloadTo no success return is reachable from the error edge of VerifyChart (under any verification strategy)", 1)
+	dl := w.Fn("pkg/downloader", "ChartDownloader.DownloadTo")
+	vc := w.Fn("pkg/downloader", "VerifyChart")
+	if dl == nil || vc == nil {
+		r.Unk("C17/VERIFY-ERROR-FATAL", "anchor", "-", "DownloadTo / VerifyChart not found")
+		return
+	}
+	r.Fn(FuncName(dl))
+	g := FullGraph(dl)
+	n := 0
+	for _, c := range callInstrs(dl) {
+		if f, _ := calleeOf(c.Common()); f == nil || origin(f) != vc {
+			continue
+		}
+		n++
+		e := errResult(c)
+		_, bad := nilTestEdges(e)
+		viol := ""
+		for _, rp := range g.classifyReturns() {
+			if rp.Class != RetSuccess {
+				continue
+			}
+			for _, be := range bad {
+				if ex, _ := g.PathExists(IPos{be.To(), -1}, retPos(rp), Avoid{StartPrev: be.From}); ex {
+					viol = w.InstrPos(rp.Ret)
+				}
+			}
+		}
+		// a tail `return …, err` of the call's own error is fine; an error edge that is never tested must be that form
+		r.Check(viol == "", "C17/VERIFY-ERROR-FATAL", siteKey(Site{dl, c, posOf(c)}), w.InstrPos(c), "a failed verification always ends in an error return", "after VerifyChart failed the download can still report success at "+viol+": a chart whose digest or signature does not verify is accepted (with a warning at most)")
+	}
+	if n == 0 {
+		r.Unk("C17/VERIFY-ERROR-FATAL", "no-call", w.Pos(dl.Pos()), "DownloadTo does not call VerifyChart")
+	}
+}
+
+// c17VerifyName: VerifyChart verifies the file it was asked about, under the name it was asked about:
+// the path handed to the signature check is the parameter itself (a resolved link target has another
+// base name, and the provenance is keyed by base name).
+func c17VerifyName(w *World, r *Report) {
+	r.Rule("C17/VERIFY-NAME", "VerifyChart hands its own path parameter (unchanged) to the signature verification, and the provenance path is that parameter plus a suffix", 1)
+	vc := w.Fn("pkg/downloader", "VerifyChart")
+	if vc == nil {
+		r.Unk("C17/VERIFY-NAME", "anchor", "-", "VerifyChart not found")
+		return
+	}
+	r.Fn(FuncName(vc))
+	n := 0
+	for _, c := range callInstrs(vc) {
+		f, _ := calleeOf(c.Common())
+		if f == nil || FuncName(f) != "(*pkg/provenance.Signatory).Verify" {
+			continue
+		}
+		n++
+		args := c.Common().Args // recv, chartpath, sigpath
+		okPath := len(args) == 3 && stripConv(args[1]) == ssa.Value(vc.Params[0])
+		okSig := false
+		if len(args) == 3 {
+			if bo, ok := stripConv(args[2]).(*ssa.BinOp); ok && bo.Op == token.ADD && stripConv(bo.X) == ssa.Value(vc.Params[0]) {
+				okSig = true
+			}
+		}
+		r.Check(okPath && okSig, "C17/VERIFY-NAME", siteKey(Site{vc, c, posOf(c)}), w.InstrPos(c), "the archive is verified under the path it was given", "the signature check is given another path than the one VerifyChart was asked about (or a provenance path not built from it): a file reached through a link or a rewritten name is verified under its target's name, which the provenance may list although it does not list the name asked for")
+	}
+	if n == 0 {
+		r.Unk("C17/VERIFY-NAME", "no-call", w.Pos(vc.Pos()), "VerifyChart does not call Signatory.Verify")
+	}
 }
